@@ -274,7 +274,7 @@ def finish(ctx, mod, t0, coverage_extra=None, assumptions=None, exhaustive=True)
         and ctx.tier in e.get("tiers", ["quick", "thorough"])
     ]
     status = 0
-    MAXV = 40
+    MAXV = int(os.environ.get("VERIF_MAXV", "40"))
     if len(new) > MAXV:
         print(f"({len(new)} distinct violation keys; the first {MAXV} are written out, all are counted in the evidence)")
     for key, v in new[:MAXV]:
